@@ -86,13 +86,66 @@ def default_bindings(body):
             out[n] = 'ServerConfig::default().' + field
     return out
 
+def _subst(body, name, expr):
+    """replace the local `name` by `expr` where it is used as a value (not `.name`, not `::name`, not the field name of
+    `name: …`, not a binder `let name` / `for name in` / `|name|`)"""
+    return re.sub(r'(?<![\w.:|])(?<!let )(?<!for )(?<!mut )' + re.escape(name) + r'\b(?!\s*:(?!:))(?!\s*\()(?!\s*\|)', lambda _m: expr, body)
+
+def _expand_shorthand(body):
+    """`ServerConfig { snapshot_days, snapshot_versions: v }` -> every field written as `field: value`"""
+    def fix(m):
+        fields = []
+        for f in split_top(m.group(2)):
+            f = f.strip()
+            if not f: continue
+            fields.append(f'{f}: {f}' if re.fullmatch(r'\w+', f) else f)
+        return m.group(1) + '{ ' + ', '.join(fields) + ' }'
+    return re.sub(r'(?<!let )(\b(?:ServerConfig|ServerArgs|Self)\s*)\{([^{}]*)\}', fix, body)
+
+_SIMPLE = [r'\w+', r'\w+\.\w+', r'SqliteStorage::new\(\s*[\w.]+\s*\)\s*\?', r'\*?\s*matches\s*\.[^;{}]*']
+
+def inline_locals(body, keep=()):
+    """Data flow through immutable locals, by substitution: `let ServerArgs { a, b: c, .. } = x;` binds a ↦ x.a, c ↦ x.b;
+    `let n = e;` with a side-effect-free or single-use `e` of the shapes in _SIMPLE binds n ↦ e. The result is the body with
+    those bindings removed and every use replaced – the direct shape the wiring is read from. (`let mut`, bindings whose
+    value is anything else, and names in `keep` are left alone.)"""
+    for _ in range(40):
+        m = re.search(r'let\s+(?:\w+::)*[A-Z]\w*\s*\{([^{}]*)\}\s*=\s*(\w+|ServerArgs::new\(\s*matches\s*\))\s*;', body)
+        if m:
+            rest = body[m.end():]
+            srcname = m.group(2) if re.fullmatch(r'\w+', m.group(2)) else 'server_args'
+            for f in split_top(m.group(1)):
+                f = f.strip()
+                if not f or f == '..': continue
+                fld, loc = ([x.strip() for x in f.split(':', 1)] if ':' in f else (f, f))
+                if not re.fullmatch(r'\w+', loc): raise ValueError('nested destructuring')
+                rest = _subst(_expand_shorthand(rest), loc, f'{srcname}.{fld}')
+            body = body[:m.start()] + rest
+            continue
+        body = _expand_shorthand(body)
+        for m in re.finditer(r'let\s+(\w+)\s*(?::[^=;]+)?=\s*([^;]+);', body):
+            name, expr = m.group(1), m.group(2).strip()
+            if name in keep or name == 'mut' or not any(re.fullmatch(p, expr, re.S) for p in _SIMPLE):
+                continue
+            body = body[:m.start()] + _subst(body[m.end():], name, expr)
+            break
+        else:
+            return body
+    raise ValueError('local bindings do not settle')
+
 def wiring(src):
     w = []
-    nb = fn_body(src[src.index('impl ServerArgs'):], 'new')
+    nb = inline_locals(fn_body(src[src.index('impl ServerArgs'):], 'new'), keep=('matches',))
     for field, expr in re.findall(r'(\w+)\s*:\s*\*?\s*matches\s*\.\s*(get_one|get_many)[^"]*"([\w-]+)"', nb) and \
             [(f, k) for f, _, k in re.findall(r'(\w+)\s*:\s*\*?\s*matches\s*\.\s*(get_one|get_many)[^"]*"([\w-]+)"', nb)]:
         w.append((f'ServerArgs.{field}', f'arg:{expr}'))
     mb = fn_body(src, 'main')
+    # the name of the local that holds the parsed arguments is not part of the wiring: it is called `server_args` here
+    m = re.search(r'let\s+(\w+)\s*(?::\s*ServerArgs\s*)?=\s*ServerArgs::new\(\s*matches\s*\)\s*;', mb)
+    if m and m.group(1) != 'server_args':
+        if re.search(r'\bserver_args\b', mb): raise ValueError('two names for the parsed arguments')
+        mb = mb[:m.start()] + 'let server_args = ServerArgs::new(matches);' + _subst(mb[m.end():], m.group(1), 'server_args')
+    mb = inline_locals(mb, keep=('matches', 'server_args', 'config', 'server', 'http_server'))
     # the translator reads the wiring off ONE function body; a `main` that delegates the construction to helpers is beyond
     # it (it would need data flow through parameters): say so, and leave the wiring to the runs of the real executable
     if not re.search(r'WebServer::new\s*\(', mb) or not re.search(r'\.bind\s*\(', mb):
